@@ -641,11 +641,11 @@ pub fn spawn_with_mailbox_capacity<T: Actor + 'static>(
 #[doc(hidden)]
 pub fn __verif_wait_for_edges() -> Vec<(u64, u64)> {
     match wait_for_graph().lock() {
-        Ok(graph) => graph.iter().map(|(k, v)| (*k, v.id)).collect(),
+        Ok(graph) => graph.iter().map(|(k, v)| (*k, v.0.id)).collect(),
         Err(poisoned) => poisoned
             .into_inner()
             .iter()
-            .map(|(k, v)| (*k, v.id))
+            .map(|(k, v)| (*k, v.0.id))
             .collect(),
     }
 }
